@@ -52,6 +52,7 @@ type HarnessResult struct {
 	Notes              []string
 	NoNative           bool
 	NoValidate         bool
+	Twin               bool
 }
 
 var pkgClauseRe = regexp.MustCompile(`(?m)^package\s+(\w+)`)
@@ -205,6 +206,9 @@ func (r *CheckRun) harnessCfg(fn *ssa.Function) (Cfg, []string, []string) {
 				cfg.Stubs[k] = v
 				notes = append(notes, "engine-only stub: "+k+" is replaced by the harness function "+v+" (symbolic outcome)")
 			}
+		case "twin":
+			notes = append(notes, "native runs use a linearised twin (steps executed sequentially): on passing paths only the assertions are compared, not tags or observations")
+			expect = append(expect, "!twin")
 		case "novalidate":
 			notes = append(notes, "passing paths are not cross-validated natively: "+m[2])
 			expect = append(expect, "!novalidate")
@@ -262,6 +266,8 @@ func (r *CheckRun) Execute() int {
 		for _, e := range expect {
 			if e == "!nonative" {
 				hr.NoNative = true
+			} else if e == "!twin" {
+				hr.Twin = true
 			} else if e == "!novalidate" {
 				hr.NoValidate = true
 			} else {
@@ -442,7 +448,7 @@ func (r *CheckRun) validate() (problems []string) {
 			}
 			isViol := j.path.Violated != "" || j.path.Outcome == outcomePanic
 			if !isViol {
-				if msg := compareNative(j.path, j.out); msg != "" {
+				if msg := compareNative(j.path, j.out, j.hr.Twin); msg != "" {
 					j.hr.ValidationMismatch = append(j.hr.ValidationMismatch, msg+" [witness "+witnessString(j.path)+"]")
 				} else {
 					j.hr.Validated++
